@@ -119,7 +119,7 @@ def check_one(fx, lang, resolved, pm, reverse_links, stats):
                 'children_mismatch:' + op,
                 f'children of {key[0]}:{key[1]} differ from the MAL semantics of its reaches expressions',
                 case={'model': pm.describe(), 'reverse_links': reverse_links, 'node': list(key),
-                      'exprs': [sem.show(e) for e in exprs], 'diverging_subexpr': sub},
+                      'exprs': [sem.show(e) for e in exprs], 'expr_trees': exprs, 'diverging_subexpr': sub},
                 expected={'lo': sorted(lo), 'hi': sorted(hi)}, observed=sorted(got)))
             if len(viols) > 5:
                 break
@@ -272,7 +272,42 @@ def run(tier, seed):
 
 
 def replay(path):
+    """re-evaluates the single (expressions, model) case of a replay file on a one-step language"""
     j = json.load(open(path))
-    print(json.dumps(j, indent=1)[:3000])
-    print('re-run the quick tier to re-evaluate this case: it is part of the enumerated space')
-    return 1
+    case = j['case']
+    if 'history' in case:                      # part B (edit histories)
+        from .. import engine_hist
+        system = make_hist_system(eval(case['system']))
+        hist = [tuple(_t(x) for x in op) for op in case['history']]
+        ctx = engine_hist.replay(system, hist)
+        try:
+            system.step(ctx, tuple(_t(x) for x in case['op']), True)
+        except common.Violation as v:
+            print('reproduced:', v)
+            print(f'VIOLATION property={PROP} replay={path}')
+            return 1
+        print('not reproduced')
+        return 0
+    if 'expr_trees' not in case:
+        print(json.dumps(j, indent=1)[:3000])
+        print('this case is re-evaluated by the quick tier (it is part of the enumerated space)')
+        return 1
+    pm = sem.PlainModel([tuple(a) for a in case['model']['assets']], [tuple(l) for l in case['model']['links']])
+    t = pm.types[case['node'][0]]
+    st = step('s0', 'or', reaches=case['expr_trees'])
+    sp = families.sem_lang([st] if t in ('Aa', 'Bb') else [], [], [st] if t == 'Dd' else [])
+    fx = langs.fixture(sp)
+    lang = sem.Lang(sp)
+    resolved = {x: inherit.resolve(sp, x) for x in TYPES}
+    vs = check_one(fx, lang, resolved, pm, case.get('reverse_links', False), {})
+    for v in vs:
+        print('reproduced:', v)
+    if vs:
+        print(f'VIOLATION property={PROP} replay={path}')
+        return 1
+    print('not reproduced')
+    return 0
+
+
+def _t(x):
+    return tuple(_t(y) for y in x) if isinstance(x, list) else x
